@@ -256,9 +256,13 @@ func (e *Emitter) emitScriptStatement(scriptStmt *ast.ScriptStatement, textLabel
 			if !ok {
 				return "", errors.New("could not emit 'break' statement because its return point is unknown")
 			}
+			// Statements after the 'break' are unreachable, but labels could occur in them,
+			// so they are kept in a chunk of their own.
+			returnID := curChunk.returnID
+			remainingChunks, _ = curChunk.splitChunkForBranch(i, &chunkCounter, remainingChunks)
 			completeChunk := &chunk{
 				id:             curChunk.id,
-				returnID:       curChunk.returnID,
+				returnID:       returnID,
 				statements:     curChunk.statements[:i],
 				branchBehavior: &breakContext{destChunkID: destChunkID},
 			}
@@ -268,9 +272,13 @@ func (e *Emitter) emitScriptStatement(scriptStmt *ast.ScriptStatement, textLabel
 			if !ok {
 				return "", errors.New("could not emit 'continue' statement because its return point is unknown")
 			}
+			// Statements after the 'continue' are unreachable, but labels could occur in them,
+			// so they are kept in a chunk of their own.
+			returnID := curChunk.returnID
+			remainingChunks, _ = curChunk.splitChunkForBranch(i, &chunkCounter, remainingChunks)
 			completeChunk := &chunk{
 				id:             curChunk.id,
-				returnID:       curChunk.returnID,
+				returnID:       returnID,
 				statements:     curChunk.statements[:i],
 				branchBehavior: &breakContext{destChunkID: destChunkID},
 			}
